@@ -454,8 +454,10 @@ def direct_calls(levels, ev, idx):
         fa = [[int(t), l + 1] for t in utils.falls(x, **kw, **kf)]
         return fr, ri, fa
 
-    dts = [np.int8, np.float64, np.int16, np.float32, np.int64]
-    dt = dts[idx % 5]
+    # 0 / 1 trains as callers hold them: signed and floating types, and the unsigned / boolean ones np.unpackbits or a comparison
+    # give (their differences must not wrap around)
+    dts = [np.int8, np.float64, np.int16, np.float32, np.int64, np.uint8, np.bool_]
+    dt = dts[idx % 7]
     a = levels.astype(dt)
     # 2-D, time along axis 0 (what read_sync returns; spelt 0 or -2) and along the last axis
     add("2d-axis0-" + dt.__name__, lambda: fronts_on(a, 0, 1, ident, True))
